@@ -73,6 +73,8 @@ type E7Spec struct {
 	PairedUndo    []FuncRuleSpec     `json:"paired_undo"`
 	Handled       []HandledSpec      `json:"handled_means_filed"`
 	LastOneWins   []FuncRuleSpec     `json:"last_one_wins"`
+	ReadOnly      []ReadOnlySpec     `json:"read_only_tables"`
+	PathPattern   []FuncRuleSpec     `json:"path_as_pattern"`
 }
 
 type FuncRuleSpec struct {
@@ -273,6 +275,12 @@ func runE7(p *Program, sp *Spec, c *Collector) {
 	}
 	for _, lw := range t.LastOneWins {
 		runLastOneWins(p, c, lw)
+	}
+	for _, ro := range t.ReadOnly {
+		runReadOnlyGlobal(p, c, ro)
+	}
+	for _, pp := range t.PathPattern {
+		runPathAsPattern(p, c, pp)
 	}
 	for _, n := range t.NoExit {
 		runNoExit(p, sp, c, n)
@@ -4124,6 +4132,10 @@ func runNestedModel(p *Program, c *Collector, nm NestedModelSpec) {
 		if !takesList {
 			continue
 		}
+		if twice := flattenedTwice(p, fn, partner, touches); twice != nil {
+			c.Ob(nm.Props, "E7.nested-model", "nestedmodel:"+p.FuncKey(fn), Violated, nm.What+": "+shortFn(p.FuncKey(fn))+" lists the member types ("+nm.Partner+") and hands the list to "+shortFn(p.FuncKey(twice.Call.StaticCallee()))+", which lists them again: every member type is walked twice", p.InstrPos(twice), false)
+			continue
+		}
 		direct := false
 		for _, f := range append([]*ssa.Function{fn}, allAnon(fn)...) {
 			for _, b := range f.Blocks {
@@ -4140,6 +4152,10 @@ func runNestedModel(p *Program, c *Collector, nm NestedModelSpec) {
 		key := "nestedmodel:" + p.FuncKey(fn)
 		// the function flattens its list (hands it to a helper that visits the nested records and gives a list of the same
 		// type back) but one of its loops still walks the list it was given: that loop leaves the member types out
+		if twice := flattenedTwice(p, fn, partner, touches); twice != nil {
+			c.Ob(nm.Props, "E7.nested-model", key, Violated, nm.What+": "+shortFn(p.FuncKey(fn))+" lists the member types ("+nm.Partner+") and hands the list to "+shortFn(p.FuncKey(twice.Call.StaticCallee()))+", which lists them again: every member type is walked twice", p.InstrPos(twice), false)
+			continue
+		}
 		if raw := rawWalkBesideFlattened(p, fn, nm, isField, reads, partner, touches); raw != nil {
 			c.Ob(nm.Props, "E7.nested-model", key, Violated, nm.What+": "+shortFn(p.FuncKey(fn))+" builds the list with the member types ("+nm.Partner+") but the loop at "+p.InstrPos(raw)+" still walks the list it was given: what member types declare is left out there, and the two walks disagree", p.InstrPos(raw), false)
 			continue
@@ -4150,6 +4166,52 @@ func runNestedModel(p *Program, c *Collector, nm NestedModelSpec) {
 			c.Ob(nm.Props, "E7.nested-model", key, Violated, nm.What+": "+shortFn(p.FuncKey(fn))+" walks a list of types and reads their "+strings.Join(nm.Reads, "/")+", but neither it nor a helper it calls ever looks at "+nm.Partner+": what member types declare and call is left out", p.FuncPos(fn), false)
 		}
 	}
+}
+
+// flattenedTwice: the result of a flattener (an own function that visits the nested records of its list argument and returns a
+// list of the same type) is passed on to an own function that applies a flattener to that parameter again.
+func flattenedTwice(p *Program, fn *ssa.Function, partner map[string]bool, touches func(*ssa.Function, map[string]bool, int, map[*ssa.Function]bool) bool) *ssa.Call {
+	isFlattenerCall := func(call *ssa.Call) bool {
+		callee := call.Call.StaticCallee()
+		if callee == nil || !p.IsOwnFunc(callee) || len(call.Call.Args) == 0 {
+			return false
+		}
+		if _, isSlice := call.Type().Underlying().(*types.Slice); !isSlice || !types.Identical(call.Type(), call.Call.Args[0].Type()) {
+			return false
+		}
+		return touches(callee, partner, 0, map[*ssa.Function]bool{})
+	}
+	for _, b := range fn.Blocks {
+		for _, in := range b.Instrs {
+			flat, ok := in.(*ssa.Call)
+			if !ok || !isFlattenerCall(flat) || flat.Referrers() == nil {
+				continue
+			}
+			for _, r := range *flat.Referrers() {
+				use, ok := r.(*ssa.Call)
+				if !ok || use.Call.StaticCallee() == nil || !p.IsOwnFunc(use.Call.StaticCallee()) || isFlattenerCall(use) {
+					continue
+				}
+				callee := use.Call.StaticCallee()
+				for i, a := range use.Call.Args {
+					if a != ssa.Value(flat) || i >= len(callee.Params) {
+						continue
+					}
+					// does the callee flatten that parameter?
+					prm := callee.Params[i]
+					if prm.Referrers() == nil {
+						continue
+					}
+					for _, pr := range *prm.Referrers() {
+						if inner, ok := pr.(*ssa.Call); ok && isFlattenerCall(inner) {
+							return use
+						}
+					}
+				}
+			}
+		}
+	}
+	return nil
 }
 
 func rawWalkBesideFlattened(p *Program, fn *ssa.Function, nm NestedModelSpec, isField func(ssa.Instruction, map[string]bool) bool, reads, partner map[string]bool,
@@ -4178,6 +4240,21 @@ func rawWalkBesideFlattened(p *Program, fn *ssa.Function, nm NestedModelSpec, is
 		}
 		if !flattened || prm.Referrers() == nil {
 			continue
+		}
+		// the list as it was given is handed to a helper that reads the model fields (and does not visit the nested records
+		// itself), next to the flattened one
+		for _, r := range *prm.Referrers() {
+			call, ok := r.(*ssa.Call)
+			if !ok || call.Call.StaticCallee() == nil || !p.IsOwnFunc(call.Call.StaticCallee()) {
+				continue
+			}
+			callee := call.Call.StaticCallee()
+			if touches(callee, partner, 0, map[*ssa.Function]bool{}) {
+				continue // the flattener itself, or a helper that walks the nested records on its own
+			}
+			if touches(callee, reads, 0, map[*ssa.Function]bool{}) {
+				return call
+			}
 		}
 		// element accesses on the raw parameter whose element is read for the model fields (directly or in a callee)
 		for _, r := range *prm.Referrers() {
